@@ -27,7 +27,9 @@ NUMS = [0, 1, -1, 2, 10, -10, 3, 100, -100, 2 ** 53, -2 ** 53, 2 ** 40 + 1,
         2 ** 53 - 1, 2 ** 53 - 2, -(2 ** 53 - 1), -(2 ** 53 - 2), 1.0000000000000002, -1.0000000000000002, -1.0,
         -1.0000000000000004,
         # huge magnitudes of both signs (the first hex digit of the key changes, 0 included)
-        -1e300, -1e200, -4e231, 1e200, -(2 ** 800), 2 ** 800, decimal.Decimal('-1E+250'), -1.7976931348623157e308, 5e-324, -5e-324]
+        -1e300, -1e200, -4e231, 1e200, -(2 ** 800), 2 ** 800, decimal.Decimal('-1E+250'), -1.7976931348623157e308, 5e-324, -5e-324,
+        # the infinities, as floats and as decimals: above and below every finite number
+        float('inf'), float('-inf'), decimal.Decimal('Infinity'), decimal.Decimal('-Infinity')]
 
 
 def gen_rows(rng, n, cols):
@@ -141,7 +143,9 @@ def prop_key(case, r):
         v = r[f]
         if isinstance(v, bool):
             v = int(v)
-        if isinstance(v, (int, float, decimal.Decimal)):
+        if isinstance(v, (float, decimal.Decimal)) and v in (float('inf'), float('-inf')):
+            out.append((0, fractions.Fraction(10) ** 400 * (1 if v > 0 else -1)))
+        elif isinstance(v, (int, float, decimal.Decimal)):
             out.append((0, fractions.Fraction(v)))
         else:
             out.append((1, str(v)))
@@ -238,6 +242,8 @@ def coq_term(case, out):
     rows = rows_dec(case['rows'])
     flat = [r[f] for r in rows for f in key_fields(case)]
     for v in flat:
+        if isinstance(v, (float, decimal.Decimal)) and v in (float('inf'), float('-inf')):
+            return None           # the infinities are outside the binary64 model's finite values (decided by the oracle)
         if isinstance(v, (int, decimal.Decimal)) and not isinstance(v, bool) and fractions.Fraction(float(v)) != fractions.Fraction(v):
             return None
         if isinstance(v, (float, decimal.Decimal)) and v != 0 and not (1e-290 < abs(float(v)) < 1e305):
